@@ -338,6 +338,10 @@ func (h *SexpHash) TypeCheckField(key Sexp, val Sexp) error {
 				if len(a.Val) == 0 {
 					return nil // okay
 				}
+				// a non-empty array whose elements have no common type
+				// (e.g. [nil 2]) fits no declared field type.
+				return fmt.Errorf("field %v.%v is %v, cannot assign untyped array '%v'",
+					p.UserStructDefn.Name, k, declaredTyp.SexpString(nil), val.SexpString(nil))
 			case *SexpSentinel:
 				return nil // okay
 			default:
